@@ -368,37 +368,61 @@ func allInboundVals() []inboundVal {
 // isApprovalCallbackCount: len(<feature>.writeApprovalCallbacks), directly or through
 // an accessor that returns it (possibly read into a local under the lock first).
 func isApprovalCallbackCount(v ssa.Value, depth int) bool {
+	return lenOfField(v, "."+FN("FeatureLocal.writeApprovalCallbacks"), depth) != nil
+}
+
+// lenOfField: v is len(<object>.<field>) — directly, read into a local first, or as
+// the result of a repository helper all of whose returns are that length. Returns
+// the len call (nil if v is something else).
+func lenOfField(v ssa.Value, suffix string, depth int) *ssa.Call {
 	if depth > 3 {
-		return false
+		return nil
 	}
 	c, ok := v.(*ssa.Call)
 	if !ok {
 		if u, isU := v.(*ssa.UnOp); isU {
 			if al, isA := u.X.(*ssa.Alloc); isA {
 				if sv := singleStore(al); sv != nil {
-					return isApprovalCallbackCount(sv, depth+1)
+					return lenOfField(sv, suffix, depth+1)
 				}
 			}
 		}
-		return false
+		if ex, isEx := v.(*ssa.Extract); isEx {
+			// one result of a helper returning several values
+			if hc, isC := ex.Tuple.(*ssa.Call); isC {
+				return lenOfHelperResult(hc, ex.Index, suffix, depth)
+			}
+		}
+		return nil
 	}
 	if builtinName(&c.Call) == "len" {
-		return strings.HasSuffix(Path(c.Call.Args[0]), "."+FN("FeatureLocal.writeApprovalCallbacks"))
+		if strings.HasSuffix(Path(c.Call.Args[0]), suffix) {
+			return c
+		}
+		return nil
 	}
+	return lenOfHelperResult(c, 0, suffix, depth)
+}
+
+func lenOfHelperResult(c *ssa.Call, idx int, suffix string, depth int) *ssa.Call {
 	h := c.Call.StaticCallee()
 	if h == nil || h.Blocks == nil || !strings.HasPrefix(fnPkgPath(h), repoMod) {
-		return false
+		return nil
 	}
-	n := 0
+	var found *ssa.Call
 	for _, b := range h.Blocks {
 		ret, isRet := b.Instrs[len(b.Instrs)-1].(*ssa.Return)
 		if !isRet {
 			continue
 		}
-		if len(ret.Results) != 1 || !isApprovalCallbackCount(ret.Results[0], depth+1) {
-			return false
+		if idx >= len(ret.Results) {
+			return nil
 		}
-		n++
+		lc := lenOfField(ret.Results[idx], suffix, depth+1)
+		if lc == nil {
+			return nil
+		}
+		found = lc
 	}
-	return n > 0
+	return found
 }
